@@ -265,6 +265,51 @@ pub fn check_source_with(
     if let Some(d) = state_diff(&obs, &model) {
         return fail(format!("{}/final context differs", prop), model.describe(), d, case_json(src, ctx), src.len());
     }
+    // "exactly once" holds through every entry point: one typed tree-level and one typed
+    // string-level `_mut` entry point (chosen by the source text) must leave the same call log and
+    // the same final context as the reference; what they *return* is C12's subject.
+    if c08_labels {
+        let k = vcore::hash_str(src) as usize;
+        let ty = crate::entry::Ty::ALL[1 + k % 7];
+        for string_level in [false, true] {
+            let log2 = new_log();
+            let mut real2 = build_hashmap(ctx, &log2);
+            let ran = vcore::catch(|| {
+                if string_level {
+                    let _ = crate::entry::str_mut(ty, src, &mut real2);
+                } else {
+                    let _ = crate::entry::node_mut(ty, &tree, &mut real2);
+                }
+            });
+            if ran.is_err() {
+                l.label("panic handed to C01");
+                return Ok(());
+            }
+            let got_log2 = take_log(&log2);
+            let which = format!("eval{}_with_context_mut ({})", ty.name(), if string_level { "string level" } else { "tree level" });
+            if !log_same(&exp.log, &got_log2) {
+                return fail(
+                    format!("{}/call log through a typed entry point differs (something evaluated twice or skipped)", prop),
+                    log_describe(&exp.log),
+                    format!("{} via {}", log_describe(&got_log2), which),
+                    case_json(src, ctx),
+                    src.len(),
+                );
+            }
+            let obs2 = observe(&real2, &probes, &[]);
+            take_log(&log2);
+            if let Some(d) = state_diff(&obs2, &model) {
+                return fail(
+                    format!("{}/final context through a typed entry point differs", prop),
+                    model.describe(),
+                    format!("{} via {}", d, which),
+                    case_json(src, ctx),
+                    src.len(),
+                );
+            }
+        }
+        l.label("typed entry points compared (call log, final context)");
+    }
     Ok(())
 }
 
